@@ -490,7 +490,7 @@ func (t *UpdateTran) fkeyDeleteBlock(ts *meta.Schema, i int, key string) {
 }
 
 func (t *UpdateTran) fkeyDeleteExists(fkth *schema.Fkey, key string, kn int) bool {
-	end := rangeEnd(key, kn)
+	end := t.fkeyRangeEnd(fkth, key, kn)
 	iter := index.NewOverIter(fkth.Table, fkth.IIndex)
 	iter.Range(index.Range{Org: key, End: end})
 	iter.Next(fkeyTran{t})
@@ -499,6 +499,15 @@ func (t *UpdateTran) fkeyDeleteExists(fkth *schema.Fkey, key string, kn int) boo
 	}
 	t.Read(fkth.Table, fkth.IIndex, key, end)
 	return !iter.Eof()
+}
+
+// fkeyRangeEnd returns the end of the range of fk's index for key.
+// Single field keys are not encoded so they must not go through rangeEnd.
+func (t *UpdateTran) fkeyRangeEnd(fk *schema.Fkey, key string, kn int) string {
+	if !t.meta.GetRoSchema(fk.Table).Indexes[fk.IIndex].Ixspec.Encodes() {
+		return key + "\x00" // exact match
+	}
+	return rangeEnd(key, kn)
 }
 
 // rangeEnd returns the end of the range for a key.
@@ -553,7 +562,7 @@ func (t *UpdateTran) cascadeRange(fk *schema.Fkey, encoded bool, key string, kn 
 	if !encoded && fkis.Encodes() {
 		key = ixkey.Encode(key)
 	}
-	end := rangeEnd(key, kn)
+	end := t.fkeyRangeEnd(fk, key, kn)
 	t.Read(fk.Table, fk.IIndex, key, end)
 	iter := index.NewOverIter(fk.Table, fk.IIndex)
 	iter.Range(index.Range{Org: key, End: end})
